@@ -198,6 +198,47 @@ func init() {
 		}
 		return normStr(b[lo:hi])
 	}
+	// strings.Trim / TrimLeft / TrimRight with a concrete ASCII cutset
+	inCut := func(fr *frame, b value, cut string, what string) bool {
+		switch b := b.(type) {
+		case uint8:
+			return strings.IndexByte(cut, b) >= 0
+		case sym:
+			ts := fr.ex.ts
+			hit := ts.Bool(false)
+			for i := 0; i < len(cut); i++ {
+				hit = ts.Or(hit, ts.Eq(b.t, ts.Const(8, uint64(cut[i]))))
+			}
+			return fr.ex.branch(hit)
+		}
+		panic(engineError{fmt.Sprintf("%s: unexpected byte %T", what, b)})
+	}
+	trimmer := func(name string, left, right bool, native func(string, string) string) intrinsic {
+		return func(fr *frame, a []value) value {
+			cut := concreteStr(fr, a[1], name)
+			if s, ok := a[0].(string); ok {
+				return native(s, cut)
+			}
+			for i := 0; i < len(cut); i++ {
+				if cut[i] >= 0x80 {
+					panic(engineError{name + ": non-ASCII cutset with symbolic data"})
+				}
+			}
+			b := strBytes(a[0])
+			lo, hi := 0, len(b)
+			for left && lo < hi && inCut(fr, b[lo], cut, name) {
+				lo++
+			}
+			for right && hi > lo && inCut(fr, b[hi-1], cut, name) {
+				hi--
+			}
+			return normStr(b[lo:hi])
+		}
+	}
+	in["strings.Trim"] = trimmer("strings.Trim", true, true, strings.Trim)
+	in["strings.TrimLeft"] = trimmer("strings.TrimLeft", true, false, strings.TrimLeft)
+	in["strings.TrimRight"] = trimmer("strings.TrimRight", false, true, strings.TrimRight)
+
 	caseMap := func(up bool, name string, native func(string) string) intrinsic {
 		return func(fr *frame, a []value) value {
 			if s, ok := a[0].(string); ok {
